@@ -182,6 +182,7 @@ main(void)
 	t0n_rlo = t0n_rhi = t0n_rpi;
 	{
 		uint32_t d0 = t0n_dpi, r0 = t0n_rpi;
+		uint32_t top0 = T0N_STK(&the_ctx)->dp_stack[t0n_dpi - 1];
 		t0n_co = 0;
 		C05_DISPATCH(&the_ctx, OP);
 		{
@@ -199,6 +200,7 @@ main(void)
 			__CPROVER_assert(t0n_co == 0, "EFF co");
 			__CPROVER_assert(t0n_co != 0, "EFF noco");
 			__CPROVER_assert(!t0n_co || C05_ERRF(&the_ctx) != 0, "EFF coerr");
+			__CPROVER_assert(!t0n_co || C05_ERRF(&the_ctx) != 0 || top0 == 0, "EFF coerr_nz");
 			__CPROVER_assert(0, "EFF completed");
 		}
 	}
